@@ -90,6 +90,12 @@ CATALOGUE = [
 ]
 
 
+# an earlier line per catalogue format: what a shared parser object has parsed before the line under test
+PREV = [[], ["alice", "bob", "-f", "--bar", "v"], ["p", "q", "-o7", "--num", "5", "-m", "a"],
+        ["server", "add", "h1", "-f"], ["5", "1.5", "2.5", "--opt=2.5", "-b", "true"],
+        ["-f", "-b", "--num", "v", "--opt=x"], ["server", "3", "x", "-f", "-m", "4"]]
+
+
 def _mutants(rng, spec, tokens, intent):
     """single-fault mutants of a well-formed line, with the error class required in strict mode"""
     cmds, args, opts = pc.spec_flat(spec)
@@ -130,18 +136,19 @@ def generate(tier, rng):
     for fi, spec in enumerate(CATALOGUE):
         for n in range(0, L + 1):
             for seq in itertools.product(ALPHABET, repeat=n):
-                yield {"spec": spec, "tokens": list(seq), "kind": "exh", "fmt": fi}
+                yield {"spec": spec, "tokens": list(seq), "kind": "exh", "fmt": fi, "prev": PREV[fi]}
     nrand = 6000 if tier == "quick" else 150000
     for _ in range(nrand):
         spec = rng.choice(CATALOGUE) if rng.random() < 0.6 else pc.gen_format(rng)
         n = rng.randint(3, 6)
-        yield {"spec": spec, "tokens": [rng.choice(ALPHABET) for _ in range(n)], "kind": "rand"}
+        yield {"spec": spec, "tokens": [rng.choice(ALPHABET) for _ in range(n)], "kind": "rand",
+               "prev": [rng.choice(ALPHABET) for _ in range(rng.randint(0, 4))]}
     nmut = 1500 if tier == "quick" else 20000
     for _ in range(nmut):
         spec = pc.gen_format(rng)
         tokens, intent = pc.gen_line(rng, spec, omit_cmd_suffix=False)
         for toks, want, what in _mutants(rng, spec, tokens, intent):
-            yield {"spec": spec, "tokens": toks, "kind": "fault", "want": want, "fault": what}
+            yield {"spec": spec, "tokens": toks, "kind": "fault", "want": want, "fault": what, "prev": tokens}
 
 
 def exhaustive(tier):
@@ -152,7 +159,9 @@ def run_impl(case):
     from clikit.args.default_args_parser import DefaultArgsParser
     fmt = pc.build_format(case["spec"])
     return {"strict": pc.run_parse(DefaultArgsParser(), fmt, case["tokens"], False),
-            "lenient": pc.run_parse(DefaultArgsParser(), fmt, case["tokens"], True)}
+            "lenient": pc.run_parse(DefaultArgsParser(), fmt, case["tokens"], True),
+            "strict_reused": pc.run_reused(fmt, case.get("prev", []), case["tokens"], False),
+            "lenient_reused": pc.run_reused(fmt, case.get("prev", []), case["tokens"], True)}
 
 
 def model_requests(case):
@@ -162,14 +171,25 @@ def model_requests(case):
 
 
 def model_obs(case, answers):
-    return {"strict": pc.canon_model_answer(answers[0]), "lenient": pc.canon_model_answer(answers[1])}
+    # the model's parse is a function of the line: a reused parser object must answer the same
+    return {"strict": pc.canon_model_answer(answers[0]), "lenient": pc.canon_model_answer(answers[1]),
+            "strict_reused": pc.canon_model_answer(answers[0]), "lenient_reused": pc.canon_model_answer(answers[1])}
 
 
 DOCUMENTED = ("CannotParseArgsException", "NoSuchOptionException", "ValueError")
 
 
 def oracle(case, obs):
-    s, l = obs["strict"], obs["lenient"]
+    return _oracle(case, obs["strict"], obs["lenient"], "") or _oracle(
+        case, obs["strict_reused"], obs["lenient_reused"], "on a parser object that parsed %r before: " % (case.get("prev", []),))
+
+
+def _oracle(case, s, l, pre):
+    r = _oracle1(case, s, l)
+    return pre + r if r else None
+
+
+def _oracle1(case, s, l):
     if "err" in s and s["err"] not in DOCUMENTED:
         return "strict parse raised %s (only the cannot-parse, no-such-option errors and ValueError are documented)" % s["err"]
     if "err" in l and l["err"] != "ValueError":
